@@ -388,8 +388,9 @@ fn e2e_shard(ctx: &Ctx, shard: usize, scripts: u64) -> Acc {
                 acc.res.evaluations += 1;
                 acc.no_output_cases += 1;
                 let s = streams(&out.log);
+                // (a flush that moves no byte is not output: only bytes are judged)
                 let flushed = out.log.iter().any(|e| matches!(e, Ev::Flush));
-                if !s.out.is_empty() || flushed {
+                if !s.out.is_empty() {
                     violation(
                         &mut acc,
                         "output-without-a-successful-query".into(),
